@@ -18,7 +18,6 @@ import (
 	"crypto/sha1"
 	"encoding/hex"
 	"fmt"
-	"math"
 	"os"
 	"sort"
 	"strconv"
@@ -67,7 +66,7 @@ type Case struct {
 	Workers int      `json:"workers,omitempty"`
 	Monitor Monitor  `json:"monitor,omitempty"`
 	Restart bool     `json:"restart,omitempty"` // the directly started threads take their ids BEFORE the processor is started, and the processor is started, finished and started again before the threads run (a host which reloads its rules)
-	Note    string   `json:"note,omitempty"` // directed cases: what the case is about
+	Note    string   `json:"note,omitempty"`    // directed cases: what the case is about
 	// Expect names rendezvous keys whose not being reached is a violation of the
 	// non-exclusion of different names (directed cases): key -> signature
 	Expect map[string]string `json:"expect,omitempty"`
@@ -163,7 +162,6 @@ func runCase(c Case) *hx.Failure {
 	go erp.Cron.Stop() // detached: never wait for it
 	proc := engine.NewProcessor(workers)
 	proc.SetFailOnFirstErrorInTriggerSequence(true)
-	proc.ThreadPool().TooManyThreshold = math.MaxInt32 // keeps the "queue is filling up" warning off stderr
 	erp.Processor = proc
 
 	st := newProbeState(erp, nthreads)
